@@ -32,6 +32,10 @@ fn case(seed: u64, lane: Lane, trace: bool, stale_focus: bool) -> CaseOut {
         h.cid_len[0] = 8;
     }
     h.cid_len[1] = *r.pick(&[4, 8, 20]);
+    if h.cid_gen == CidGenKind::Hashed {
+        // (that generator only makes 8-byte CIDs; the spec length is what the wire decoder uses)
+        h.cid_len[1] = 8;
+    }
     h.cid_lifetime_ms = if r.chance(50) { Some(*r.pick(&[30, 200, 2000])) } else { None };
     // (token expiry under heavy loss and plaintext-visible reset tokens would end connections for
     // reasons that are not this property's business)
@@ -42,9 +46,11 @@ fn case(seed: u64, lane: Lane, trace: bool, stale_focus: bool) -> CaseOut {
         // ones, and old datagrams (carrying long-retired CIDs) are replayed much later
         h.cid_lifetime_ms = Some(*r.pick(&[20, 30, 60]));
         h.net.replay_pm = *r.pick(&[200, 400]);
-        if h.cid_len[0] == 0 {
-            h.cid_len[0] = 8;
-        }
+        // CIDs that are never issued twice by an endpoint (the Random generator with short CIDs and
+        // the Hashed one, whose CIDs carry a 24-bit nonce, legitimately re-issue old values to
+        // other connections when rotation is this fast: a replay is then routed by the book)
+        h.cid_gen = CidGenKind::Seq;
+        h.cid_len = [*r.pick(&[8, 16, 20]), *r.pick(&[8, 20])];
     }
     for t in h.cli_t.iter_mut().chain([&mut h.srv_t]) {
         t.pad_to_mtu = false;
